@@ -5,10 +5,17 @@
    Host byte order: little endian (stated in the model: loads/stores are little-endian values).
 
    Domain predicates (Pixel/Translate.v): [server_ok]/[client_ok] = bpp in {8,16,24,32}/{8,16,32},
-   max = 2^k-1 (k = 1..16), shift + k <= bpp, components pairwise disjoint; [no_ovf] = the C int
-   expression c*outMax + inMax/2 stays below 2^31 (false only for a 16-bit component scaled to a 16-bit
-   component, finding F10b); [be sf = false] = the server format's byte order is the host's (F10c). *)
-From LV Require Import Gen.Consts_C10 Pixel.Translate Pixel.TranslateProofs Pixel.TranslateProofs2.
+   max = 2^k-1 (k = 1..16), shift + k <= bpp, components pairwise disjoint; [client_ok24] = the same
+   for bpp 24; [be sf = false] = the server format's byte order is the host's (finding F10c, open).
+
+   Baseline = the repaired library (fix commits 7bd61ce, 7c8a2b7, c561012, 3f4ae4e in /repo): the
+   source switches regenerated into Gen/Consts_C10.v (3-byte load of 24-bpp pixels, uint32_t rescaling,
+   3-byte table entries indexed correctly) are re-checked by computation inside the proofs
+   (TranslateProofs3.v: load24_bytes_now, scale_unsigned_now, rgb24_fixed_now).  A regression of the
+   source flips a switch, these lemmas stop computing and the theorems are reported as no longer
+   shown; the former refutation witnesses (F10, F10b, F10d) are kept in corpus/C10 and, as regression
+   lemmas conditional on the old switch values, in TranslateProofs2.v / TranslateProofs3.v. *)
+From LV Require Import Gen.Consts_C10 Pixel.Translate Pixel.TranslateProofs Pixel.TranslateProofs2 Pixel.TranslateProofs3.
 From Coq Require Import ZArith List.
 Import ListNotations.
 Local Open Scope Z_scope.
@@ -16,28 +23,27 @@ Local Open Scope Z_scope.
 (* C10_rule (full statement, as in DESIGN.md): for every supported pair and every source pixel each
    output component equals (c*outMax + inMax/2)/inMax, sits at the client's shift in the client's
    byte order, all other bits are 0 -- for both table strategies.
-   The faithful model violates it outside [no_ovf] and for [be sf = true]; the provable part is
-   C10_rule (hypotheses explicit), the excluded parts are C10_rule_overflow_refuted and
-   C10_rule_foreign_server_order_refuted.                                                         *)
+   The faithful model violates it for [be sf = true] only: the provable part is C10_rule with that
+   hypothesis explicit, the excluded part is C10_rule_foreign_server_order_refuted (F10c).         *)
 Theorem C10_rule : forall econ sf cf cf' st msg cm stride w h input out,
   set_translate econ sf cf = SetupOk cf' st msg ->
-  server_ok sf -> client_ok cf' -> arith_ok sf cf' -> be sf = false -> bytes_ok input ->
+  server_ok sf -> client_ok cf' -> be sf = false -> bytes_ok input ->
   st <> SNone ->
   translate_fn st sf cf' cm stride w h input = XOk out ->
   forall r x, 0 <= r < h -> 0 <= x < w ->
     slice out ((r * w + x) * (bpp cf' / 8)) (bpp cf' / 8) =
     client_bytes cf' (rule_pixel sf cf' (src_pixel sf input (r * row_step sf stride + x * (bpp sf / 8)))).
-Proof. exact rule_via_setup. Qed.
+Proof. exact rule_via_setup_now. Qed.
 
 (* the same for each strategy taken directly (no detour through the selection) *)
 Theorem C10_rule_both_strategies : forall st sf cf cm stride w h input out,
-  (st = SSingleTC \/ st = SRGB) -> server_ok sf -> client_ok cf -> arith_ok sf cf -> be sf = false ->
+  (st = SSingleTC \/ st = SRGB) -> server_ok sf -> client_ok cf -> be sf = false ->
   bytes_ok input ->
   translate_fn st sf cf cm stride w h input = XOk out ->
   forall r x, 0 <= r < h -> 0 <= x < w ->
     slice out ((r * w + x) * (bpp cf / 8)) (bpp cf / 8) =
     client_bytes cf (rule_pixel sf cf (src_pixel sf input (r * row_step sf stride + x * (bpp sf / 8)))).
-Proof. exact translate_rule. Qed.
+Proof. exact translate_rule_now. Qed.
 
 (* what [rule_pixel] is: decoded with the client's shifts and maxima each component is the rounded
    rescaling of the source component, it is <= the client's max, the pixel fits the client's bpp
@@ -67,15 +73,37 @@ Example C10_rule_single_nonvacuous :
   translate_fn SSingleTC (f_rgb565 false) (f_rgb888 true) empty_cmap 2 1 1 [0; 248] = XOk [0; 255; 0; 0].
 Proof. exact single_nonvacuous. Qed.
 
-(* refuted part 1 (finding F10b): 16-bit -> 16-bit component, int overflow in the table initialiser *)
-Theorem C10_rule_overflow_refuted : scale_unsigned = false ->
-  exists sf cf input out,
-    server_ok sf /\ client_ok cf /\ be sf = false /\ bytes_ok input /\ ~ no_ovf sf cf /\
-    translate_fn SRGB sf cf empty_cmap 4 1 1 input = XOk out /\
-    slice out 0 (bpp cf / 8) <> client_bytes cf (rule_pixel sf cf (src_pixel sf input 0)).
-Proof. exact rule_overflow_refuted. Qed.
+(* C10_rule_24: 24-bpp clients (accepted by the library when LIBVNCSERVER_ALLOW24BPP; [client_ok24] =
+   bpp 24, same component conditions): the 3 output bytes of every pixel are the rule pixel in the
+   client's byte order, for the single-table and for the three-table functions. *)
+Theorem C10_rule_24 : forall econ sf cf cf' st msg cm stride w h input out,
+  set_translate econ sf cf = SetupOk cf' st msg ->
+  server_ok sf -> client_ok24 cf' -> be sf = false -> bytes_ok input ->
+  st <> SNone ->
+  translate_fn st sf cf' cm stride w h input = XOk out ->
+  Z.of_nat (length out) = w * h * 3 /\
+  forall r x, 0 <= r < h -> 0 <= x < w ->
+    slice out ((r * w + x) * 3) 3 =
+    client_bytes cf' (rule_pixel sf cf' (src_pixel sf input (r * row_step sf stride + x * (bpp sf / 8)))).
+Proof. exact rule_24_via_setup_now. Qed.
 
-(* refuted part 2 (finding F10c): server format in the non-host byte order *)
+Theorem C10_rule_24_both_strategies : forall st sf cf cm stride w h input out,
+  (st = SSingleTC \/ st = SRGB) ->
+  server_ok sf -> client_ok24 cf -> be sf = false -> bytes_ok input ->
+  translate_fn st sf cf cm stride w h input = XOk out ->
+  Z.of_nat (length out) = w * h * 3 /\
+  forall r x, 0 <= r < h -> 0 <= x < w ->
+    slice out ((r * w + x) * 3) 3 =
+    client_bytes cf (rule_pixel sf cf (src_pixel sf input (r * row_step sf stride + x * (bpp sf / 8)))).
+Proof. exact translate_rule_24_now. Qed.
+
+Example C10_rule_24_nonvacuous :
+  server_ok (f_rgb565 false) /\ client_ok24 f_rgb24 /\ no_ovf (f_rgb565 false) f_rgb24 /\
+  set_translate false (f_rgb565 false) f_rgb24 = SetupOk f_rgb24 SSingleTC [] /\
+  translate_fn SSingleTC (f_rgb565 false) f_rgb24 empty_cmap 2 2 1 [0; 248; 31; 0] = XOk [0; 0; 255; 255; 0; 0].
+Proof. exact rule_24_nonvacuous. Qed.
+
+(* refuted part (finding F10c, open): server format in the non-host byte order *)
 Theorem C10_rule_foreign_server_order_refuted :
   exists sf cf input out,
     server_ok sf /\ client_ok cf /\ no_ovf sf cf /\ be sf = true /\ bytes_ok input /\
@@ -173,19 +201,31 @@ Example C10_bgr233_nonvacuous :
 Proof. exact cmclient_nonvacuous. Qed.
 
 (* C10_area_exact (full statement): output length = w*h*bpp_out/8 and the bytes read are exactly the
-   w x h input area.  Holds for 8/16/32-bpp servers; refuted for 24-bpp servers (finding F10). *)
+   w x h input area. *)
 Theorem C10_area_out_length : forall st sf cf cm stride w h input out,
   (bpp sf = 8 \/ bpp sf = 16 \/ bpp sf = 24 \/ bpp sf = 32) -> 0 <= bpp cf -> bpp cf <> 24 -> bytes_ok input ->
   translate_fn st sf cf cm stride w h input = XOk out ->
   Z.of_nat (length out) = w * h * (bpp cf / 8).
 Proof. exact translate_out_length. Qed.
 
-(* the loads are exactly the pixel cells of the area ... *)
-Theorem C10_area_exact_partial : forall st sf cf stride w h o l,
-  st <> SNone -> (bpp sf = 8 \/ bpp sf = 16 \/ bpp sf = 32) -> stride mod (bpp sf / 8) = 0 ->
+(* C10_area_exact: for every server pixel size the loads are exactly the pixel cells of the w x h area
+   (offset r*stride + x*size, length size); stride pixel-aligned for 8/16/32-bpp servers (the C code
+   divides it by the pixel size), arbitrary for 24 bpp. *)
+Theorem C10_area_exact : forall st sf cf stride w h o l,
+  st <> SNone -> (bpp sf = 8 \/ bpp sf = 16 \/ bpp sf = 24 \/ bpp sf = 32) ->
+  (bpp sf <> 24 -> stride mod (bpp sf / 8) = 0) ->
   (In (o, l) (reads_fn st sf cf stride w h) <->
    exists r x, 0 <= r < h /\ 0 <= x < w /\ o = r * stride + x * (bpp sf / 8) /\ l = bpp sf / 8).
-Proof. exact reads_area_exact. Qed.
+Proof. exact reads_area_exact_now. Qed.
+
+(* and an input holding exactly the area is enough, 24-bpp servers included *)
+Theorem C10_area_exact_sufficient : forall st sf cf cm stride w h input,
+  (st = SSingleTC \/ st = SRGB) -> (bpp sf = 8 \/ bpp sf = 16 \/ bpp sf = 24 \/ bpp sf = 32) ->
+  (bpp cf = 8 \/ bpp cf = 16 \/ bpp cf = 32) -> zero_max sf = false ->
+  0 <= stride -> (bpp sf <> 24 -> stride mod (bpp sf / 8) = 0) -> 0 <= w -> 0 <= h ->
+  (0 < w -> 0 < h -> (h - 1) * stride + w * (bpp sf / 8) <= Z.of_nat (length input)) ->
+  exists out, translate_fn st sf cf cm stride w h input = XOk out.
+Proof. exact translate_area_sufficient_now. Qed.
 
 (* ... where [reads_fn] is tied to the executable function in both directions: a successful run
    made every listed load inside the buffer, a fault is a listed load crossing the buffer end *)
@@ -202,36 +242,27 @@ Theorem C10_area_fault_is_read : forall st sf cf cm stride w h input k,
               k = Z.max o (Z.of_nat (length input)).
 Proof. exact translate_fault_is_read. Qed.
 
-(* ... and, positively: for 8/16/32-bpp servers an input holding exactly the w x h area (last row not
-   padded) is enough: the translation completes without touching anything else *)
-Theorem C10_area_exact_sufficient : forall st sf cf cm stride w h input,
-  (st = SSingleTC \/ st = SRGB) -> (bpp sf = 8 \/ bpp sf = 16 \/ bpp sf = 32) ->
-  (bpp cf = 8 \/ bpp cf = 16 \/ bpp cf = 32) -> zero_max sf = false ->
-  0 <= stride -> stride mod (bpp sf / 8) = 0 -> 0 <= w -> 0 <= h ->
-  (0 < w -> 0 < h -> (h - 1) * stride + w * (bpp sf / 8) <= Z.of_nat (length input)) ->
-  exists out, translate_fn st sf cf cm stride w h input = XOk out.
-Proof. exact translate_area_sufficient. Qed.
-
-(* 24-bpp servers: every load is [load24_bytes] long (4 while the source uses a uint32_t load) ... *)
-Theorem C10_area_24bpp_reads : forall st sf cf stride w h o l,
-  st <> SNone -> bpp sf = 24 ->
-  (In (o, l) (reads_fn st sf cf stride w h) <->
-   exists r x, 0 <= r < h /\ 0 <= x < w /\ o = r * stride + x * 3 /\ l = load24_bytes).
-Proof. exact reads_area_24. Qed.
-
-(* ... so an input of exactly the area cannot be translated (F10) *)
-Theorem C10_area_24bpp_refuted : load24_bytes = 4 ->
-  exists sf cf stride w h input,
-    server_ok sf /\ client_ok cf /\ bpp sf = 24 /\ stride = w * 3 /\
-    Z.of_nat (length input) = (h - 1) * stride + w * 3 /\
-    translate_fn SRGB sf cf empty_cmap stride w h input = XFault ((h - 1) * stride + w * 3).
-Proof. exact area_24bpp_refuted. Qed.
+(* the former witnesses of F10 (24-bpp area of exactly 3 bytes), F10b (16-bit to 16-bit component) and
+   F10d (white pixel to a 24-bpp client through three tables) now translate according to the rule *)
+Example C10_former_witnesses_repaired :
+  translate_fn SRGB f_rgb24 (f_rgb565 false) empty_cmap 3 1 1 [1; 2; 3] = XOk [0; 0] /\
+  translate_fn SRGB f_r16a f_r16b empty_cmap 4 1 1 [128; 76; 236; 227] = XOk [236; 227; 128; 76] /\
+  translate_fn SRGB (f_rgb888 false) f_rgb24 empty_cmap 4 1 1 [255; 255; 255; 0] = XOk [255; 255; 255].
+Proof. exact former_witnesses_repaired. Qed.
 
 Example C10_area_nonvacuous :
   translate_fn SRGB f_rgb24 (f_rgb565 false) empty_cmap 3 1 1 [1; 2; 3; 0] = XOk [0; 0] /\
   reads_fn SRGB f_rgb24 (f_rgb565 false) 3 1 1 = [(0, load24_bytes)] /\
   reads_fn SRGB (f_rgb888 false) (f_rgb565 false) 8 2 2 = [(0, 4); (4, 4); (8, 4); (12, 4)].
 Proof. exact area_nonvacuous. Qed.
+
+(* rfbSetClientColourMap for a true-colour client: the lookup table is rebuilt from the screen's
+   current map exactly when the server is colour-mapped and the client is ready; the colour-map rule
+   (C10_colourmap_rule, stated for any map) then applies to the new map *)
+Theorem C10_recolour : forall sf ready tcm scm,
+  (tc sf = false -> ready = true -> recolour sf ready tcm scm = scm) /\
+  (tc sf = true \/ ready = false -> recolour sf ready tcm scm = tcm).
+Proof. exact recolour_spec. Qed.
 
 (* translator tie of the byte-swap macros: the model's swaps reproduce the values obtained by
    compiling Swap16 / Swap32 of rfb.h on probes with pairwise distinct bytes *)
